@@ -27,8 +27,10 @@ import LemoModel.Mpt
 import LemoModel.MptStore
 import LemoProofs.Lemmas.Mpt
 import LemoProofs.Lemmas.MptStore
+import LemoProofs.Lemmas.MptDb
 namespace LemoProofs.C17
 open LemoModel LemoModel.Mpt LemoModel.MptStore LemoProofs.MptLemmas LemoProofs.MptStoreLemmas
+open LemoProofs.MptDbLemmas
 
 section single
 variable (small : CNode → Bool) (hashOf : CNode → Hash)
@@ -458,6 +460,135 @@ theorem root_binds_content (hinj : ∀ a b, hashOf a = hashOf b → a = b) (n1 n
     rw [canon_ext n1 n2 h1 h2 h]
 
 end roots
+
+/-! ### the node pool of `store/trie_database.go`: `Trie.Commit` into the pool, `TrieDatabase.Commit`
+    to disk, re-opening through a FRESH `TrieDatabase` over the same disk
+
+  `DbOk` (LemoProofs.MptDbLemmas): every hash child of a pool blob is a recorded reference or already
+  on disk; recorded children are in the pool or on disk; the disk is closed under hash children and
+  content-addressed.  Extra hypothesis for the fresh re-open, on `small` (the only one): a node that is
+  embedded contains no hash reference (`hasher.store` records references to DIRECT hash children
+  only; true of the real threshold: an encoding shorter than 32 bytes cannot contain a 33-byte hash
+  reference). -/
+
+section db
+variable (small : CNode → Bool) (hashOf : CNode → Hash)
+
+/-- **db_commit_keeps_invariant**: `Trie.Commit` with its `db.Insert` / `db.Reference` calls applied to
+    the pool: what `TrieDatabase.Node` returns only grows, stays content-addressed, is closed for the
+    committed trie, and the pool invariant `DbOk` is kept (children are written before parents). -/
+theorem db_commit_keeps_invariant (hinj : ∀ a b, hashOf a = hashOf b → a = b) (db : Db)
+    (hOk : DbOk hashOf db) (hS : Sound hashOf db.node) (t : Trie) (n : Node)
+    (hA : Abs small hashOf db.node t.root n) (hC : Canon n) :
+    ∃ t' ws, t.commit small hashOf = .ok (refRoot (baseH small hashOf) n, t', ws) ∧
+      DbOk hashOf (db.insertAll ws) ∧ Sound hashOf (db.insertAll ws).node ∧
+      Store.le db.node (db.insertAll ws).node ∧ Abs small hashOf (db.insertAll ws).node t'.root n ∧
+      Stored (baseH small hashOf) (db.insertAll ws).node true n ∧
+      Closed (baseH small hashOf) (db.insertAll ws).node n := by
+  obtain ⟨hP, _, hnv⟩ := canon_placed_nes n hC
+  have heq := trie_commit_eq small hashOf hA hC
+  have hw := writes_sound (baseH small hashOf) (t.hasher small hashOf true) rfl rfl hA hP hnv
+  obtain ⟨g1, g2, g3, _⟩ := insertAll_spec hinj (writes (t.hasher small hashOf true) t.root true) db hS hw
+  obtain ⟨_, c2, c3⟩ := commit_core (baseH small hashOf) (t.hasher small hashOf true) rfl rfl hA hP hnv
+    (db.insertAll (writes (t.hasher small hashOf true) t.root true)).node g1 (fun _ => g3)
+  have hpr := (writes_present (baseH small hashOf) (t.hasher small hashOf true) hA hP hnv
+    (fun x => db.node x ≠ none) (fun x hx => hx)).1
+  exact ⟨_, _, heq, insertAll_ok hinj _ db hOk hS hw hpr, g2, g1, c2, (c3 rfl).1, (c3 rfl).2⟩
+
+/-- **db_flush_transparent**: `TrieDatabase.Commit(root)` (write the nodes reachable through the recorded
+    references to disk, uncache them) changes nothing `Node` returns and keeps the pool invariant. -/
+theorem db_flush_transparent (db db' : Db) (root : Hash) (hOk : DbOk hashOf db) (hS : Sound hashOf db.node)
+    (h : db.commit root = .ok db') : db'.node = db.node ∧ DbOk hashOf db' :=
+  ⟨commit_node h, (commit_ok hOk hS h).1⟩
+
+/-- **flush_reopen_fresh**: after `TrieDatabase.Commit(root(n))`, a NEW `TrieDatabase` over the same
+    key-value store (empty pool) serves the whole trie: `trie.New(root(n), freshDb)` succeeds and the
+    re-opened trie abstracts to `n` — so (`commit_reopen_*`, `no_missing_node`) every later operation
+    behaves as on `n`. -/
+theorem flush_reopen_fresh (hinj : ∀ a b, hashOf a = hashOf b → a = b) (hz : ∀ c, hashOf c ≠ zeroHash)
+    (hsmall : ∀ c, small c = true → noHashC c) (db db' : Db) (hOk : DbOk hashOf db)
+    (hS : Sound hashOf db.node) (n : Node) (hC : Canon n)
+    (hSt : Stored (baseH small hashOf) db.node true n) (hCl : Closed (baseH small hashOf) db.node n)
+    (h : db.commit (refRoot (baseH small hashOf) n) = .ok db') :
+    ∃ t', Trie.new hashOf db'.fresh.node (refRoot (baseH small hashOf) n) = .ok t' ∧
+      Abs small hashOf db'.fresh.node t'.root n := by
+  obtain ⟨hP, _, _⟩ := canon_placed_nes n hC
+  obtain ⟨hOk', hroot, hmono⟩ := commit_ok hOk hS h
+  have hnode := commit_node h
+  have hd : ∀ x, db'.fresh.node x = lookupH db'.disk x := fun x => rfl
+  have hle : Store.le db'.fresh.node db.node := by
+    intro x c hx
+    rw [hd] at hx
+    rw [← hnode]
+    simp only [Db.node]
+    cases hm : lookupH db'.mem x with
+    | none => exact hx
+    | some m =>
+      have h1 : db'.node x = some m.blob := by simp [Db.node, hm]
+      rw [hnode] at h1
+      have e1 := hS _ _ h1
+      have e2 := hOk'.dsound x c hx
+      rw [e1] at e2
+      simp only [Option.some.injEq]
+      exact hinj _ _ e2
+  have hg : ∀ h c, db'.fresh.node h = some c → ∀ x, x ∈ directRefs c → db'.fresh.node x ≠ none := by
+    intro h0 c hc x hx
+    rw [hd] at hc ⊢
+    exact hOk'.disk h0 c hc x hx
+  have hboth : Stored (baseH small hashOf) db'.fresh.node true n ∧ Closed (baseH small hashOf) db'.fresh.node n := by
+    rcases canon_branch_or_empty hC with hn | hb
+    · subst hn
+      exact ⟨fun h0 hh => by simp [refC] at hh, trivial⟩
+    · obtain ⟨h0, hh⟩ := refC_force_hash (baseH small hashOf) n hb
+      have hr0 : refRoot (baseH small hashOf) n = h0 := by simp [refRoot, hh]
+      have hpres : db'.fresh.node h0 ≠ none := by
+        rw [hd]
+        have hn0 : db.node h0 ≠ none := by rw [hSt h0 hh]; simp
+        rcases (node_ne_none db h0).mp hn0 with g | g
+        · have := hroot (by rw [hr0]; exact g)
+          rw [hr0] at this; exact this
+        · exact hmono h0 g
+      obtain ⟨g1, g2⟩ := closed_of_graph (baseH small hashOf) hsmall db'.fresh.node db.node hle hg n true h0 hb hP hh
+        hpres hSt hCl
+      refine ⟨fun h1 hh1 => ?_, g2⟩
+      rw [hh] at hh1
+      simp only [CNode.hash.injEq] at hh1
+      rw [← hh1]; exact g1
+  obtain ⟨t', a1, a2, _⟩ := open_inv small hashOf hinj hz hC hboth.1 hboth.2
+  exact ⟨t', a1, a2⟩
+
+/-- **commit_flush_reopen_fresh** (the chain): `Trie.Commit`, `TrieDatabase.Commit(root)`, then a fresh
+    `TrieDatabase` over the same disk and `trie.New(root)`: the re-opened trie abstracts to the same
+    resolved trie as the trie that was committed. -/
+theorem commit_flush_reopen_fresh (hinj : ∀ a b, hashOf a = hashOf b → a = b) (hz : ∀ c, hashOf c ≠ zeroHash)
+    (hsmall : ∀ c, small c = true → noHashC c) (db : Db) (hOk : DbOk hashOf db)
+    (hS : Sound hashOf db.node) (t : Trie) (n : Node) (hA : Abs small hashOf db.node t.root n) (hC : Canon n) :
+    ∃ root t' ws, t.commit small hashOf = .ok (root, t', ws) ∧
+      ∀ db2, (db.insertAll ws).commit root = .ok db2 →
+        ∃ t2, Trie.new hashOf db2.fresh.node root = .ok t2 ∧ Abs small hashOf db2.fresh.node t2.root n := by
+  obtain ⟨t', ws, h1, h2, h3, _, _, h6, h7⟩ := db_commit_keeps_invariant small hashOf hinj db hOk hS t n hA hC
+  exact ⟨_, t', ws, h1, fun db2 hdb =>
+    flush_reopen_fresh small hashOf hinj hz hsmall (db.insertAll ws) db2 h2 h3 n hC h6 h7 hdb⟩
+
+/-- the hypothesis on `small` is satisfiable by a non-trivial predicate: "a leaf with a short value" -/
+def leafSmall : CNode → Bool
+  | .short _ (.value v) => decide (v.length < 3)
+  | _ => false
+
+example : ∀ c, leafSmall c = true → noHashC c := by
+  intro c h
+  cases c with
+  | short K c' => cases c' <;> simp [leafSmall] at h <;> trivial
+  | empty => simp [leafSmall] at h
+  | value v => simp [leafSmall] at h
+  | hash x => simp [leafSmall] at h
+  | full ch => simp [leafSmall] at h
+
+/-- the pool invariant and content-addressing hold for the empty database -/
+example : DbOk hashOf {} ∧ Sound hashOf ({} : Db).node :=
+  ⟨dbOk_empty hashOf, fun h c hc => by cases hc⟩
+
+end db
 
 /-! ### non-vacuity and witnesses -/
 
